@@ -1,1 +1,1070 @@
 // Suites that need access to items private to this module (feature ipa-verif, test builds only).
+//
+// This file is `include!`d as `helpers::buffers::ipa_verif_hook`; `super::circular` (private to
+// `helpers::buffers`) is visible from here.
+
+// ------------------------------------------------------------------------------------------------
+// C14 (a): CircularBuf as a FIFO byte queue.   Request:  c14.circ <cap> <ws> <rs> <op,op,…>
+//   ops: w<hex> = next().write(bytes) | t = take() | c = close()
+//   response: `<out>|<len>|<can_read>|<can_write>|<closed>` per op, `;`-separated, where <out> is
+//   `ok` or the hex of the bytes returned by take (`-` = none); the trace ends with
+//   `panic:<tag>` at the first panic.
+// ------------------------------------------------------------------------------------------------
+mod c14_circ {
+    use super::super::circular::CircularBuf;
+    use crate::ipa_verif::proto::*;
+
+    /// Panic messages are reduced to a stable tag (a substring of the Rust message).
+    pub fn c14_panic_tag(msg: &str) -> String {
+        const TAGS: &[&str] = &[
+            "must all be greater than zero",
+            "write size must divide capacity",
+            "write size must divide read_size",
+            "Already closed",
+            "Writing to a closed buffer",
+            "Not enough space for the next write",
+            "Expect to keep messages of size",
+        ];
+        for t in TAGS {
+            if msg.contains(t) {
+                return format!("panic:{t}");
+            }
+        }
+        msg.to_string()
+    }
+
+    fn b(x: bool) -> &'static str {
+        if x { "1" } else { "0" }
+    }
+
+    fn obs(buf: &CircularBuf) -> String {
+        format!("{}|{}|{}|{}", buf.len(), b(buf.can_read()), b(buf.can_write()), b(buf.is_closed()))
+    }
+
+    pub fn exec(req: &str) -> String {
+        let t: Vec<&str> = req.split(' ').collect();
+        assert_eq!(t[0], "c14.circ");
+        let cap: usize = t[1].parse().unwrap();
+        let ws: usize = t[2].parse().unwrap();
+        let rs: usize = t[3].parse().unwrap();
+        let mut buf = match guarded(|| CircularBuf::new(cap, ws, rs)) {
+            Ok(b) => b,
+            Err(p) => return c14_panic_tag(&p),
+        };
+        let mut out: Vec<String> = vec![];
+        if t[4] != "-" {
+            for op in t[4].split(',') {
+                let r = match op.as_bytes()[0] {
+                    b'w' => {
+                        let m = unhex(if op.len() == 1 { "-" } else { &op[1..] });
+                        guarded(|| {
+                            buf.next().write(m.as_slice());
+                            "ok".to_string()
+                        })
+                    }
+                    b't' => guarded(|| hex(&buf.take())),
+                    b'c' => guarded(|| {
+                        buf.close();
+                        "ok".to_string()
+                    }),
+                    _ => panic!("harness: bad op {op}"),
+                };
+                match r {
+                    Ok(s) => out.push(format!("{s}|{}", obs(&buf))),
+                    Err(p) => {
+                        out.push(c14_panic_tag(&p));
+                        break;
+                    }
+                }
+            }
+        }
+        if out.is_empty() { "-".into() } else { out.join(";") }
+    }
+
+    /// Generator-side bookkeeping (only used to prune sequences after a rejected operation).
+    #[derive(Clone)]
+    struct Track {
+        len: usize,
+        closed: bool,
+        ctr: usize,
+    }
+
+    fn msg(tr: &mut Track, n: usize) -> String {
+        let v: Vec<u8> = (0..n)
+            .map(|_| {
+                tr.ctr += 1;
+                (tr.ctr % 251) as u8
+            })
+            .collect();
+        format!("w{}", if v.is_empty() { String::new() } else { hex(&v) })
+    }
+
+    /// All operation sequences up to `depth` (a sequence stops after an op the reference rejects).
+    fn dfs(cap: usize, ws: usize, rs: usize, depth: usize, tr: Track, cur: &mut Vec<String>, out: &mut Vec<String>) {
+        if depth == 0 {
+            out.push(format!("c14.circ {cap} {ws} {rs} {}", cur.join(",")));
+            return;
+        }
+        for op in 0..3 {
+            let mut t2 = tr.clone();
+            let (s, rejected) = match op {
+                0 => {
+                    let rej = t2.closed || cap - t2.len < ws;
+                    let s = msg(&mut t2, ws);
+                    t2.len += ws;
+                    (s, rej)
+                }
+                1 => {
+                    if (t2.closed && t2.len > 0) || t2.len >= rs {
+                        t2.len -= rs.min(t2.len);
+                    }
+                    ("t".to_string(), false)
+                }
+                _ => {
+                    let rej = t2.closed;
+                    t2.closed = true;
+                    ("c".to_string(), rej)
+                }
+            };
+            cur.push(s);
+            if rejected {
+                out.push(format!("c14.circ {cap} {ws} {rs} {}", cur.join(",")));
+            } else {
+                dfs(cap, ws, rs, depth - 1, t2, cur, out);
+            }
+            cur.pop();
+        }
+    }
+
+    pub fn generate(rng: &mut Rng, thorough: bool) -> Vec<String> {
+        let mut out = vec![];
+        // constructor: boundary and rejected configurations
+        for (c, w, r) in [
+            (0, 1, 1), (1, 0, 1), (1, 1, 0), (0, 0, 0), (4, 3, 3), (6, 4, 4), (6, 2, 3), (6, 3, 2), (4, 2, 1),
+            (1, 1, 1), (2, 2, 2), (2, 1, 4), (4, 2, 8), (3, 3, 3),
+        ] {
+            out.push(format!("c14.circ {c} {w} {r} -"));
+        }
+        // exhaustive to depth over a grid (read_size ∤ capacity, read_size > capacity included)
+        let grid: &[(usize, usize, usize)] = &[
+            (1, 1, 1), (2, 1, 1), (2, 1, 2), (3, 1, 2), (4, 2, 2), (4, 1, 3), (6, 2, 4), (6, 3, 3), (6, 3, 6),
+            (8, 2, 4), (5, 1, 2), (3, 1, 3), (4, 2, 8), (2, 2, 4), (9, 3, 6),
+        ];
+        let depth = if thorough { 12 } else { 10 };
+        for &(c, w, r) in grid {
+            dfs(c, w, r, depth, Track { len: 0, closed: false, ctr: 0 }, &mut vec![], &mut out);
+        }
+        // random long walks over larger configurations
+        let n = if thorough { 6000 } else { 600 };
+        for k in 0..n {
+            let ws = *rng.pick(&[1usize, 1, 2, 3, 4, 5, 8, 16]);
+            let cap = ws * (1 + rng.usize_below(if k % 3 == 0 { 4 } else { 24 }));
+            let rs = if rng.below(8) == 0 {
+                ws * (1 + rng.usize_below(2 * cap / ws + 1))
+            } else {
+                ws * (1 + rng.usize_below(cap / ws))
+            };
+            let steps = 10 + rng.usize_below(if thorough { 400 } else { 120 });
+            let mut tr = Track { len: 0, closed: false, ctr: rng.usize_below(251) };
+            let mut ops = vec![];
+            // phases: mostly-write, mostly-read alternate so the cursors wrap many times
+            let mut bias = 70;
+            for i in 0..steps {
+                if i % 17 == 0 {
+                    bias = *rng.pick(&[20u64, 50, 80, 95]);
+                }
+                let x = rng.below(100);
+                if x < bias {
+                    let wrong = rng.below(200) == 0;
+                    let n = if wrong { ws + 1 - 2 * rng.usize_below(2).min(ws) } else { ws };
+                    let rej = tr.closed || cap - tr.len < ws || n != ws;
+                    ops.push(msg(&mut tr, n));
+                    if rej {
+                        if rng.below(4) == 0 {
+                            break; // keep the rejected write as the last op
+                        }
+                        ops.pop();
+                        ops.push("t".into());
+                        if (tr.closed && tr.len > 0) || tr.len >= rs {
+                            tr.len -= rs.min(tr.len);
+                        }
+                    } else {
+                        tr.len += ws;
+                    }
+                } else if x < 99 || tr.closed {
+                    ops.push("t".into());
+                    if (tr.closed && tr.len > 0) || tr.len >= rs {
+                        tr.len -= rs.min(tr.len);
+                    }
+                } else {
+                    ops.push("c".into());
+                    tr.closed = true;
+                }
+            }
+            if rng.below(3) == 0 && !tr.closed {
+                ops.push("c".into());
+                for _ in 0..(cap / rs.min(cap) + 2) {
+                    ops.push("t".into());
+                }
+            }
+            out.push(format!("c14.circ {cap} {ws} {rs} {}", ops.join(",")));
+        }
+        out
+    }
+
+    #[test]
+    fn verif_c14_circ() {
+        run_suite("c14_circ", generate, exec);
+    }
+}
+
+// ------------------------------------------------------------------------------------------------
+// C14 (b): OrderingSender at poll granularity.   Request:  c14.sender <cap> <ws> <rs> <op,op,…>
+//   ops: s<t>.<i>.<hex> = poll `send(i, msg)` with waker t | c<t>.<i> = poll `close(i)` |
+//        t<t> = `take_next` with waker t
+//   response item per poll: `<res>|<woken>`; <res> = R | P | N | =<hex>; <woken> = ids woken during
+//   this poll in order (`.`-separated, `-` = none); the trace ends with `panic:<tag>`.
+// ------------------------------------------------------------------------------------------------
+pub mod c14_wakers {
+    use std::{
+        sync::{Arc, Mutex},
+        task::{Wake, Waker},
+    };
+
+    /// A waker that appends its id to a shared log when woken.
+    pub struct LogWaker {
+        pub id: usize,
+        pub log: Arc<Mutex<Vec<usize>>>,
+    }
+
+    impl Wake for LogWaker {
+        fn wake(self: Arc<Self>) {
+            self.log.lock().unwrap().push(self.id);
+        }
+        fn wake_by_ref(self: &Arc<Self>) {
+            self.log.lock().unwrap().push(self.id);
+        }
+    }
+
+    pub fn waker(id: usize, log: &Arc<Mutex<Vec<usize>>>) -> Waker {
+        Waker::from(Arc::new(LogWaker { id, log: Arc::clone(log) }))
+    }
+
+    pub fn drain(log: &Arc<Mutex<Vec<usize>>>) -> String {
+        let v: Vec<usize> = std::mem::take(&mut *log.lock().unwrap());
+        if v.is_empty() {
+            "-".into()
+        } else {
+            v.iter().map(|x| x.to_string()).collect::<Vec<_>>().join(".")
+        }
+    }
+}
+
+pub mod c14_msg {
+    use std::convert::Infallible;
+
+    use generic_array::{ArrayLength, GenericArray};
+
+    use crate::ff::Serializable;
+
+    /// A message of `N` arbitrary bytes (never fails to deserialize).
+    #[derive(Debug, Clone, PartialEq, Eq)]
+    pub struct VMsg<N: ArrayLength>(pub GenericArray<u8, N>);
+
+    impl<N: ArrayLength> VMsg<N> {
+        pub fn from_slice(b: &[u8]) -> Self {
+            Self(GenericArray::try_from_iter(b.iter().copied()).expect("harness: message length"))
+        }
+    }
+
+    impl<N: ArrayLength> Serializable for VMsg<N> {
+        type Size = N;
+        type DeserializationError = Infallible;
+
+        fn serialize(&self, buf: &mut GenericArray<u8, Self::Size>) {
+            buf.copy_from_slice(&self.0);
+        }
+
+        fn deserialize(buf: &GenericArray<u8, Self::Size>) -> Result<Self, Self::DeserializationError> {
+            Ok(Self(buf.clone()))
+        }
+    }
+}
+
+mod c14_sender {
+    use std::{
+        future::Future,
+        num::NonZeroUsize,
+        pin::pin,
+        sync::{Arc, Mutex},
+        task::{Context, Poll},
+    };
+
+    use typenum::{U1, U2, U3, U4, U5, U6, U7, U8};
+
+    use super::{
+        super::OrderingSender,
+        c14_msg::VMsg,
+        c14_wakers::{drain, waker},
+    };
+    use crate::ipa_verif::proto::*;
+
+    fn tag(msg: &str) -> String {
+        const TAGS: &[&str] = &[
+            "attempt to write/close at index",
+            "writing on a closed stream",
+            "Already closed",
+            "Expect to keep messages of size",
+            "must all be greater than zero",
+            "write size must divide capacity",
+            "write size must divide read_size",
+        ];
+        for t in TAGS {
+            if msg.contains(t) {
+                return format!("panic:{t}");
+            }
+        }
+        msg.to_string()
+    }
+
+    fn poll_send(s: &OrderingSender, i: usize, m: &[u8], cx: &mut Context<'_>) -> Poll<()> {
+        macro_rules! go {
+            ($n:ty) => {{
+                let msg = VMsg::<$n>::from_slice(m);
+                let fut = s.send::<VMsg<$n>, _>(i, msg);
+                pin!(fut).poll(cx)
+            }};
+        }
+        match m.len() {
+            1 => go!(U1),
+            2 => go!(U2),
+            3 => go!(U3),
+            4 => go!(U4),
+            5 => go!(U5),
+            6 => go!(U6),
+            7 => go!(U7),
+            8 => go!(U8),
+            n => panic!("harness: unsupported message size {n}"),
+        }
+    }
+
+    pub fn exec(req: &str) -> String {
+        let t: Vec<&str> = req.split(' ').collect();
+        assert_eq!(t[0], "c14.sender");
+        let nz = |s: &str| NonZeroUsize::new(s.parse::<usize>().unwrap());
+        let (Some(cap), Some(ws), Some(rs)) = (nz(t[1]), nz(t[2]), nz(t[3])) else {
+            return "panic:must all be greater than zero".into(); // NonZeroUsize: not constructible
+        };
+        let sender = match guarded(|| OrderingSender::new(cap, ws, rs)) {
+            Ok(s) => s,
+            Err(p) => return tag(&p),
+        };
+        let log = Arc::new(Mutex::new(Vec::new()));
+        let mut out: Vec<String> = vec![];
+        if t[4] != "-" {
+            for op in t[4].split(',') {
+                let f: Vec<&str> = op[1..].split('.').collect();
+                let w = waker(f[0].parse().unwrap(), &log);
+                let mut cx = Context::from_waker(&w);
+                let r = match op.as_bytes()[0] {
+                    b's' => {
+                        let m = unhex(if f[2].is_empty() { "-" } else { f[2] });
+                        guarded(|| match poll_send(&sender, f[1].parse().unwrap(), &m, &mut cx) {
+                            Poll::Ready(()) => "R".to_string(),
+                            Poll::Pending => "P".to_string(),
+                        })
+                    }
+                    b'c' => guarded(|| {
+                        let fut = sender.close(f[1].parse().unwrap());
+                        match pin!(fut).poll(&mut cx) {
+                            Poll::Ready(()) => "R".to_string(),
+                            Poll::Pending => "P".to_string(),
+                        }
+                    }),
+                    b't' => guarded(|| match sender.take_next(&cx) {
+                        Poll::Ready(Some(v)) => format!("={}", hex(&v)),
+                        Poll::Ready(None) => "N".to_string(),
+                        Poll::Pending => "P".to_string(),
+                    }),
+                    _ => panic!("harness: bad op {op}"),
+                };
+                match r {
+                    Ok(s) => out.push(format!("{s}|{}", drain(&log))),
+                    Err(p) => {
+                        out.push(tag(&p));
+                        break;
+                    }
+                }
+            }
+        }
+        if out.is_empty() { "-".into() } else { out.join(";") }
+    }
+
+    // ---- generator -----------------------------------------------------------------------------
+    /// Generator-side prediction of Ready/Pending (only to know which tasks are still unfinished).
+    #[derive(Clone)]
+    struct Abs {
+        cap: usize,
+        ws: usize,
+        rs: usize,
+        next: usize,
+        len: usize,
+        closed: bool,
+    }
+
+    #[derive(Clone, Copy, PartialEq)]
+    enum Pred {
+        Ready,
+        Pending,
+        Panic,
+    }
+
+    impl Abs {
+        fn send(&mut self, i: usize, n: usize) -> Pred {
+            if i < self.next {
+                Pred::Panic
+            } else if i > self.next {
+                Pred::Pending
+            } else if self.closed {
+                Pred::Panic
+            } else if self.cap - self.len < self.ws {
+                Pred::Pending
+            } else if n != self.ws {
+                Pred::Panic
+            } else {
+                self.len += self.ws;
+                self.next += 1;
+                Pred::Ready
+            }
+        }
+        fn close(&mut self, i: usize) -> Pred {
+            if i < self.next {
+                Pred::Panic
+            } else if i > self.next {
+                Pred::Pending
+            } else if self.closed {
+                Pred::Panic
+            } else {
+                self.closed = true;
+                self.next += 1;
+                Pred::Ready
+            }
+        }
+        /// true if the stream is finished (Ready(None))
+        fn take(&mut self) -> bool {
+            if (self.closed && self.len > 0) || self.len >= self.rs {
+                self.len -= self.rs.min(self.len);
+                false
+            } else {
+                self.closed
+            }
+        }
+    }
+
+    fn msg_for(i: usize, ws: usize) -> String {
+        hex(&(0..ws).map(|k| ((i * 7 + k * 3 + 1) % 256) as u8).collect::<Vec<u8>>())
+    }
+
+    /// A task: writer of index i (`Some(i)`, waker 10+i) or the closer (`None`, waker 50).
+    fn poll_task(a: &mut Abs, ops: &mut Vec<String>, task: Option<usize>, n: usize) -> Pred {
+        match task {
+            Some(i) => {
+                ops.push(format!("s{}.{}.{}", 10 + i, i, msg_for(i, a.ws)));
+                a.send(i, a.ws)
+            }
+            None => {
+                ops.push(format!("c50.{n}"));
+                a.close(n)
+            }
+        }
+    }
+
+    /// n writers + closer: first polls in the order `perm` (n = closer), the reader polled every
+    /// `every` polls; then rounds over the unfinished tasks (ascending or descending) with a reader
+    /// poll in between, until everything is done and the stream is finished.
+    fn schedule(cap: usize, ws: usize, rs: usize, n: usize, perm: &[usize], every: usize, desc: bool) -> String {
+        let mut a = Abs { cap, ws, rs, next: 0, len: 0, closed: false };
+        let mut ops = vec![];
+        let mut done = vec![false; n + 1];
+        let mut finished = false;
+        let mut k = 0;
+        for &p in perm {
+            let r = poll_task(&mut a, &mut ops, if p == n { None } else { Some(p) }, n);
+            done[p] = r == Pred::Ready;
+            k += 1;
+            if every > 0 && k % every == 0 {
+                ops.push("t99".into());
+                finished = a.take();
+            }
+        }
+        let mut rounds = 0;
+        while (!finished || done.iter().any(|d| !d)) && rounds < 4 * (n + 2) {
+            rounds += 1;
+            let mut order: Vec<usize> = (0..=n).filter(|&p| !done[p]).collect();
+            if desc {
+                order.reverse();
+            }
+            for p in order {
+                let r = poll_task(&mut a, &mut ops, if p == n { None } else { Some(p) }, n);
+                done[p] = r == Pred::Ready;
+            }
+            ops.push("t99".into());
+            finished = a.take();
+        }
+        format!("c14.sender {cap} {ws} {rs} {}", ops.join(","))
+    }
+
+    fn permutations(n: usize) -> Vec<Vec<usize>> {
+        fn go(k: usize, cur: &mut Vec<usize>, out: &mut Vec<Vec<usize>>) {
+            if k == cur.len() {
+                out.push(cur.clone());
+                return;
+            }
+            for j in k..cur.len() {
+                cur.swap(k, j);
+                go(k + 1, cur, out);
+                cur.swap(k, j);
+            }
+        }
+        let mut out = vec![];
+        go(0, &mut (0..n).collect(), &mut out);
+        out
+    }
+
+    pub fn generate(rng: &mut Rng, thorough: bool) -> Vec<String> {
+        let mut out = vec![];
+        // constructor boundaries
+        for (c, w, r) in [(0, 1, 1), (1, 0, 1), (1, 1, 0), (4, 3, 3), (6, 2, 3), (1, 1, 1), (4, 2, 8)] {
+            out.push(format!("c14.sender {c} {w} {r} -"));
+        }
+        // hand-written boundaries: reader before any data; close on an empty sender; duplicate
+        // index; send after close; close twice; wrong message size; re-poll after Ready
+        for ops in [
+            "t99,t99,c50.0,t99,t99",
+            "t99,s10.0.0102,t99,s11.1.0304,t99,c50.2,t99",
+            "s10.0.0102,s10.0.0102",
+            "s10.0.0102,s12.0.0304",
+            "c50.0,s10.1.0102",
+            "c50.0,c51.1",
+            "c50.1,c51.1,s10.0.0102,c50.1,c51.1",
+            "s10.0.010203",
+            "s10.0.01",
+            "s11.1.01,s10.0.0102,s11.1.01",
+            "s11.1.0304,s12.1.0304,s10.0.0102",
+            "s10.0.0102,s11.1.0304,s12.2.0506,t98,t99,s12.2.0506,t99,t98",
+            "s12.2.0506,s11.1.0304,c50.3,s10.0.0102,s11.1.0304,s12.2.0506,t99,s12.2.0506,c50.3,t99,t99,t99",
+            "s11.1.0304,c50.1,s10.0.0102,c50.1,t99,s11.1.0304",
+        ] {
+            out.push(format!("c14.sender 4 2 2 {ops}"));
+            out.push(format!("c14.sender 4 2 4 {ops}"));
+            out.push(format!("c14.sender 8 2 4 {ops}"));
+        }
+        // all first-poll permutations of n writers + closer
+        let cfgs: &[(usize, usize, usize)] = &[(2, 1, 1), (2, 1, 2), (4, 2, 2), (4, 2, 4), (6, 2, 4), (8, 2, 4), (3, 3, 3), (16, 4, 8)];
+        let max_n = if thorough { 6 } else { 5 };
+        for n in 0..=max_n {
+            let perms = permutations(n + 1);
+            for (pi, perm) in perms.iter().enumerate() {
+                for (ci, &(c, w, r)) in cfgs.iter().enumerate() {
+                    // thin out the larger n in the quick tier (every permutation still appears with some cfg)
+                    if !thorough && n >= 4 && (pi + ci) % (if n == 4 { 2 } else { 8 }) != 0 {
+                        continue;
+                    }
+                    let every = [0usize, 1, 2, 3][(pi + ci) % 4];
+                    out.push(schedule(c, w, r, n, perm, every, (pi / 4 + ci) % 2 == 0));
+                }
+            }
+        }
+        if thorough {
+            // n = 6: all 7! orders on two configurations
+            for (pi, perm) in permutations(7).iter().enumerate() {
+                out.push(schedule(4, 2, 2, 6, perm, pi % 4, pi % 2 == 0));
+                out.push(schedule(6, 1, 3, 6, perm, (pi + 1) % 4, pi % 2 == 1));
+            }
+        } else {
+            let perms = permutations(7);
+            for k in 0..400 {
+                let perm = &perms[rng.usize_below(perms.len())];
+                let &(c, w, r) = rng.pick(cfgs);
+                out.push(schedule(c, w, r, 6, perm, k % 4, rng.bool()));
+            }
+        }
+        // random schedules (with spurious re-polls and occasional misuse)
+        let nrand = if thorough { 20_000 } else { 2_000 };
+        for _ in 0..nrand {
+            let ws = *rng.pick(&[1usize, 1, 2, 3, 4, 8]);
+            let cap = ws * (1 + rng.usize_below(6));
+            let rs = ws * (1 + rng.usize_below(cap / ws));
+            let n = 1 + rng.usize_below(6);
+            let mut a = Abs { cap, ws, rs, next: 0, len: 0, closed: false };
+            let mut ops = vec![];
+            let mut done = vec![false; n + 1];
+            let mut finished = false;
+            let misuse = rng.below(10) == 0;
+            let reader_p = *rng.pick(&[10u64, 25, 50]);
+            let mut steps = 0;
+            while (!finished || done.iter().any(|d| !d)) && steps < 40 * (n + 2) {
+                steps += 1;
+                if rng.below(100) < reader_p {
+                    ops.push(format!("t{}", if rng.below(16) == 0 { 98 } else { 99 }));
+                    finished = a.take();
+                    continue;
+                }
+                let cand: Vec<usize> = (0..=n).filter(|&p| !done[p]).collect();
+                if cand.is_empty() {
+                    ops.push("t99".into());
+                    finished = a.take();
+                    continue;
+                }
+                // bias towards the task whose turn it is, so schedules make progress
+                let p = if rng.below(3) == 0 && !done[a.next.min(n)] { a.next.min(n) } else { *rng.pick(&cand) };
+                if misuse && rng.below(12) == 0 {
+                    // misuse: wrong size / finished task polled again / second task for the same index
+                    match rng.below(3) {
+                        0 => {
+                            let sz = if ws == 8 { 7 } else { ws + 1 };
+                            ops.push(format!("s{}.{}.{}", 10 + p.min(n - 1), p.min(n - 1), msg_for(p, sz)));
+                            if a.send(p.min(n - 1), sz) == Pred::Panic {
+                                break;
+                            }
+                        }
+                        1 => {
+                            let q = rng.usize_below(n);
+                            ops.push(format!("s{}.{}.{}", 30 + q, q, msg_for(q, ws)));
+                            let r = a.send(q, ws);
+                            if r == Pred::Panic {
+                                break;
+                            }
+                            if r == Pred::Ready {
+                                done[q] = true;
+                            }
+                        }
+                        _ => {
+                            let q = rng.usize_below(n + 1);
+                            ops.push(format!("c51.{q}"));
+                            let r = a.close(q);
+                            if r == Pred::Panic {
+                                break;
+                            }
+                            if r == Pred::Ready && q == n {
+                                done[n] = true;
+                            }
+                        }
+                    }
+                    continue;
+                }
+                let r = poll_task(&mut a, &mut ops, if p == n { None } else { Some(p) }, n);
+                if r == Pred::Panic {
+                    break;
+                }
+                done[p] = r == Pred::Ready;
+            }
+            out.push(format!("c14.sender {cap} {ws} {rs} {}", ops.join(",")));
+        }
+        // indices crossing the shard boundaries (64-wide blocks, 8 shards, wrap at 512)
+        let far = if thorough { 1100 } else { 530 };
+        for (cap, rs, desc) in [(4usize, 2usize, false), (8, 8, true), (3, 1, false)] {
+            let parked: Vec<usize> = vec![1, 2, 62, 63, 64, 65, 127, 128, 129, 191, 192, 255, 256, 320, 448, 511, 512, 513, 520, 575, 576, 1023, 1024, 1025]
+                .into_iter()
+                .filter(|&x| x < far)
+                .collect();
+            let mut a = Abs { cap, ws: 1, rs, next: 0, len: 0, closed: false };
+            let mut ops = vec![];
+            let mut order = parked.clone();
+            if desc {
+                order.reverse();
+            }
+            for &i in &order {
+                ops.push(format!("s{}.{}.{}", 2000 + i, i, msg_for(i, 1)));
+                a.send(i, 1);
+            }
+            ops.push(format!("c5000.{far}"));
+            a.close(far);
+            let mut i = 0;
+            while i < far {
+                let id = if parked.contains(&i) { 2000 + i } else { 7 };
+                ops.push(format!("s{id}.{i}.{}", msg_for(i, 1)));
+                match a.send(i, 1) {
+                    Pred::Ready => i += 1,
+                    _ => {
+                        ops.push("t99".into());
+                        a.take();
+                    }
+                }
+            }
+            ops.push(format!("c5000.{far}"));
+            a.close(far);
+            for _ in 0..(cap + 2) {
+                ops.push("t99".into());
+            }
+            out.push(format!("c14.sender {cap} 1 {rs} {}", ops.join(",")));
+        }
+        out
+    }
+
+    #[test]
+    fn verif_c14_sender() {
+        run_suite("c14_sender", generate, exec);
+    }
+}
+
+// ------------------------------------------------------------------------------------------------
+// C14 (c): UnorderedReceiver over a scripted byte stream.   Request:  c14.recv <sz> <cap> <op,…>
+//   ops: f<hex> = a chunk becomes available (`f` = empty chunk) | e = the stream ends |
+//        r<t>.<i> = poll `recv(i)` with waker t
+//   response item: `<res>|<woken>`; <res> = - (feed/end) | P | =<hex> | E<n>; ends at `panic:<tag>`.
+// ------------------------------------------------------------------------------------------------
+mod c14_receiver {
+    use std::{
+        collections::VecDeque,
+        future::Future,
+        num::NonZeroUsize,
+        pin::{Pin, pin},
+        sync::{Arc, Mutex},
+        task::{Context, Poll, Waker},
+    };
+
+    use futures::Stream;
+    use typenum::{U1, U2, U3, U4, U5, U6, U7, U8};
+
+    use super::{
+        super::{UnorderedReceiver, UnorderedReceiverError},
+        c14_msg::VMsg,
+        c14_wakers::{drain, waker},
+    };
+    use crate::ipa_verif::proto::*;
+
+    #[derive(Default)]
+    struct Source {
+        queue: VecDeque<Vec<u8>>,
+        ended: bool,
+        waker: Option<Waker>,
+    }
+
+    /// The scripted byte stream handed to the receiver.
+    struct Scripted(Arc<Mutex<Source>>);
+
+    impl Stream for Scripted {
+        type Item = Vec<u8>;
+
+        fn poll_next(self: Pin<&mut Self>, cx: &mut Context<'_>) -> Poll<Option<Self::Item>> {
+            let mut s = self.0.lock().unwrap();
+            if let Some(c) = s.queue.pop_front() {
+                Poll::Ready(Some(c))
+            } else if s.ended {
+                Poll::Ready(None)
+            } else {
+                s.waker = Some(cx.waker().clone());
+                Poll::Pending
+            }
+        }
+    }
+
+    fn poll_recv(r: &UnorderedReceiver<Scripted, Vec<u8>>, sz: usize, i: usize, cx: &mut Context<'_>) -> String {
+        macro_rules! go {
+            ($n:ty) => {{
+                let fut = r.recv::<VMsg<$n>, usize>(i);
+                match pin!(fut).poll(cx) {
+                    Poll::Pending => "P".to_string(),
+                    Poll::Ready(Ok(m)) => format!("={}", hex(&m.0)),
+                    Poll::Ready(Err(UnorderedReceiverError::EndOfStream(e))) => format!("E{}", usize::from(e.0)),
+                    Poll::Ready(Err(e)) => format!("err:{e}"),
+                }
+            }};
+        }
+        match sz {
+            1 => go!(U1),
+            2 => go!(U2),
+            3 => go!(U3),
+            4 => go!(U4),
+            5 => go!(U5),
+            6 => go!(U6),
+            7 => go!(U7),
+            8 => go!(U8),
+            n => panic!("harness: unsupported message size {n}"),
+        }
+    }
+
+    pub fn exec(req: &str) -> String {
+        let t: Vec<&str> = req.split(' ').collect();
+        assert_eq!(t[0], "c14.recv");
+        let sz: usize = t[1].parse().unwrap();
+        let Some(cap) = NonZeroUsize::new(t[2].parse().unwrap()) else {
+            return "panic:a capacity of 1 is too small".into(); // 0 is not constructible
+        };
+        let src = Arc::new(Mutex::new(Source::default()));
+        let recv = match guarded(|| UnorderedReceiver::new(Box::pin(Scripted(Arc::clone(&src))), cap)) {
+            Ok(r) => r,
+            Err(p) if p.contains("a capacity of 1 is too small") => return "panic:a capacity of 1 is too small".into(),
+            Err(p) => return p,
+        };
+        let log = Arc::new(Mutex::new(Vec::new()));
+        let mut out: Vec<String> = vec![];
+        if t[3] != "-" {
+            for op in t[3].split(',') {
+                let r = match op.as_bytes()[0] {
+                    b'f' => {
+                        let w = {
+                            let mut s = src.lock().unwrap();
+                            s.queue.push_back(unhex(if op.len() == 1 { "-" } else { &op[1..] }));
+                            s.waker.take()
+                        };
+                        if let Some(w) = w {
+                            w.wake();
+                        }
+                        Ok("-".to_string())
+                    }
+                    b'e' => {
+                        let w = {
+                            let mut s = src.lock().unwrap();
+                            s.ended = true;
+                            s.waker.take()
+                        };
+                        if let Some(w) = w {
+                            w.wake();
+                        }
+                        Ok("-".to_string())
+                    }
+                    b'r' => {
+                        let f: Vec<&str> = op[1..].split('.').collect();
+                        let w = waker(f[0].parse().unwrap(), &log);
+                        let mut cx = Context::from_waker(&w);
+                        guarded(|| poll_recv(&recv, sz, f[1].parse().unwrap(), &mut cx))
+                    }
+                    _ => panic!("harness: bad op {op}"),
+                };
+                match r {
+                    Ok(s) => out.push(format!("{s}|{}", drain(&log))),
+                    Err(p) => {
+                        out.push(if p.contains("Awaiting a read") { "panic:Awaiting a read".into() } else { p });
+                        break;
+                    }
+                }
+            }
+        }
+        if out.is_empty() { "-".into() } else { out.join(";") }
+    }
+
+    // ---- generator -----------------------------------------------------------------------------
+    /// All ways to cut `len` bytes into non-empty chunks.
+    fn compositions(len: usize) -> Vec<Vec<usize>> {
+        if len == 0 {
+            return vec![vec![]];
+        }
+        let mut out = vec![];
+        for first in 1..=len {
+            for mut rest in compositions(len - first) {
+                rest.insert(0, first);
+                out.push(rest);
+            }
+        }
+        out
+    }
+
+    fn permutations(n: usize) -> Vec<Vec<usize>> {
+        fn go(k: usize, cur: &mut Vec<usize>, out: &mut Vec<Vec<usize>>) {
+            if k == cur.len() {
+                out.push(cur.clone());
+                return;
+            }
+            for j in k..cur.len() {
+                cur.swap(k, j);
+                go(k + 1, cur, out);
+                cur.swap(k, j);
+            }
+        }
+        let mut out = vec![];
+        go(0, &mut (0..n).collect(), &mut out);
+        out
+    }
+
+    struct Gen {
+        sz: usize,
+        fed: usize,
+        next: usize,
+        ops: Vec<String>,
+        ctr: usize,
+    }
+
+    impl Gen {
+        fn feed(&mut self, n: usize) {
+            let v: Vec<u8> = (0..n)
+                .map(|_| {
+                    self.ctr += 1;
+                    (self.ctr % 251) as u8
+                })
+                .collect();
+            self.fed += n;
+            self.ops.push(format!("f{}", if v.is_empty() { String::new() } else { hex(&v) }));
+        }
+        /// poll recv(i) with waker 100+i; returns true if it resolves (prediction)
+        fn recv(&mut self, i: usize) -> bool {
+            self.ops.push(format!("r{}.{}", 100 + i, i));
+            if i == self.next && (i + 1) * self.sz <= self.fed {
+                self.next += 1;
+                true
+            } else {
+                false
+            }
+        }
+    }
+
+    /// One schedule: n requests in `perm` order over the chunking `cuts` (+ `extra` trailing bytes),
+    /// `mode` 0: requests first, then chunk by chunk with re-polls; 1: data first; 2: interleaved.
+    fn schedule(sz: usize, cap: usize, n: usize, perm: &[usize], cuts: &[usize], extra: usize, mode: usize, empties: bool) -> String {
+        let mut g = Gen { sz, fed: 0, next: 0, ops: vec![], ctr: 0 };
+        let mut done = vec![false; n];
+        let mut repoll = |g: &mut Gen, done: &mut Vec<bool>| {
+            // poll the unfinished requests in perm order until no more progress
+            loop {
+                let mut progress = false;
+                for &p in perm {
+                    if !done[p] && g.recv(p) {
+                        done[p] = true;
+                        progress = true;
+                    }
+                }
+                if !progress {
+                    break;
+                }
+            }
+        };
+        if mode == 0 {
+            for &p in perm {
+                done[p] = g.recv(p);
+            }
+        }
+        for (k, &c) in cuts.iter().enumerate() {
+            if empties && k % 2 == 0 {
+                g.feed(0);
+            }
+            g.feed(c);
+            match mode {
+                0 => repoll(&mut g, &mut done),
+                2 => {
+                    let p = perm[k % n.max(1)];
+                    if n > 0 && !done[p] {
+                        done[p] = g.recv(p);
+                    }
+                }
+                _ => {}
+            }
+        }
+        if extra > 0 {
+            g.feed(extra);
+        }
+        if n > 0 {
+            repoll(&mut g, &mut done);
+        }
+        g.ops.push("e".into());
+        // after the end: the next unfulfilled request gets EndOfStream, the others stay pending
+        for &p in perm {
+            if !done[p] {
+                g.recv(p);
+            }
+        }
+        g.recv(n); // one past the last
+        format!("c14.recv {sz} {cap} {}", g.ops.join(","))
+    }
+
+    pub fn generate(rng: &mut Rng, thorough: bool) -> Vec<String> {
+        let mut out = vec![];
+        for c in [0, 1, 2] {
+            out.push(format!("c14.recv 1 {c} -"));
+        }
+        for ops in [
+            "r100.0,e,r100.0,r101.1",
+            "e,r100.0",
+            "f01,r100.0,r100.0",
+            "f0102,r101.1,r100.0,r100.0",
+            "r105.5,r104.4,r103.3,r102.2,r101.1,r100.0,f000102030405,r100.0,r101.1,r102.2,r103.3,r104.4,r105.5",
+            "r100.0,r200.0,f01,r100.0",
+            "r101.1,r201.1,f0102,r100.0",
+        ] {
+            for cap in [2, 3, 4] {
+                out.push(format!("c14.recv 1 {cap} {ops}"));
+            }
+        }
+        // all chunkings x all request orders
+        let max_n = if thorough { 5 } else { 4 };
+        for sz in 1..=3usize {
+            for n in 0..=max_n {
+                let total = n * sz;
+                if total > (if thorough { 10 } else { 8 }) {
+                    continue;
+                }
+                let comps = compositions(total);
+                let perms = permutations(n);
+                for (ci, cuts) in comps.iter().enumerate() {
+                    for (pi, perm) in perms.iter().enumerate() {
+                        let k = ci + pi;
+                        // quick: every (chunking, order) pair appears with one (cap, mode); thorough: all modes
+                        let caps: &[usize] = &[2, 3, 4, 8];
+                        if thorough {
+                            for mode in 0..3 {
+                                out.push(schedule(sz, caps[k % 4], n, perm, cuts, k % sz, mode, k % 3 == 0));
+                            }
+                        } else {
+                            out.push(schedule(sz, caps[k % 4], n, perm, cuts, k % sz, k % 3, k % 5 == 0));
+                        }
+                    }
+                }
+            }
+        }
+        // random: long streams, big chunks, far-ahead requests (overflow), shared wakers
+        let nrand = if thorough { 20_000 } else { 2_000 };
+        for _ in 0..nrand {
+            let sz = 1 + rng.usize_below(8);
+            let cap = *rng.pick(&[2usize, 2, 3, 4, 5, 8, 16]);
+            let n = 1 + rng.usize_below(40);
+            let mut g = Gen { sz, fed: 0, next: 0, ops: vec![], ctr: rng.usize_below(251) };
+            let total = n * sz + if rng.below(3) == 0 { rng.usize_below(sz) } else { 0 };
+            let mut steps = 0;
+            let ahead = *rng.pick(&[1usize, 2, 2 * cap + 3, 4 * cap]);
+            while (g.next < n || g.fed < total) && steps < 60 * n {
+                steps += 1;
+                let x = rng.below(100);
+                if x < 35 && g.fed < total {
+                    let c = match rng.below(5) {
+                        0 => 0,
+                        1 => 1,
+                        2 => sz,
+                        3 => 1 + rng.usize_below(3 * sz),
+                        _ => 1 + rng.usize_below(sz),
+                    };
+                    g.feed(c.min(total - g.fed));
+                } else if x < 65 {
+                    let i = g.next;
+                    g.recv(i);
+                } else {
+                    let i = g.next + rng.usize_below(ahead + 1);
+                    if rng.below(20) == 0 {
+                        // a different task (waker) asks for the same index
+                        g.ops.push(format!("r{}.{}", 300 + i, i));
+                        if i == g.next && (i + 1) * sz <= g.fed {
+                            g.next += 1;
+                        }
+                    } else {
+                        g.recv(i);
+                    }
+                }
+            }
+            if rng.bool() {
+                g.ops.push("e".into());
+                let i = g.next;
+                g.recv(i);
+                g.recv(i + 1);
+            } else if rng.below(8) == 0 && g.next > 0 {
+                let i = rng.usize_below(g.next);
+                g.recv(i); // already fulfilled: panic
+            }
+            out.push(format!("c14.recv {sz} {cap} {}", g.ops.join(",")));
+        }
+        out
+    }
+
+    #[test]
+    fn verif_c14_receiver() {
+        run_suite("c14_receiver", generate, exec);
+    }
+}
